@@ -53,8 +53,14 @@ func (w *World) present(op, token string) (res string, chosen string) {
 		}
 	}()
 	ctx := provisioner.NewContextWithMethod(authority.NewContext(context.Background(), w.ca.Auth), methods[op])
+	if w.certType != "" {
+		ctx = provisioner.NewContextWithCertType(ctx, w.certType)
+	}
 	opts, err := w.ca.Auth.Authorize(ctx, token)
 	if err != nil {
+		if os.Getenv("C01_ERR") != "" {
+			fmt.Fprintf(os.Stderr, "reject(%s): %v\n", op, err)
+		}
 		return "reject", ""
 	}
 	// which provisioner answered: the real lookup, and (where the sign options carry it) the provisioner itself
@@ -86,6 +92,8 @@ func (r *runner) emit(k *Case) {
 	if !ok {
 		return
 	}
+	w.certType = k.CT
+	defer func() { w.certType = "" }()
 	t0 := time.Now()
 	res, chosen := w.present(k.Op, token)
 	t1 := time.Now()
@@ -120,7 +128,7 @@ func main() {
 	n := flag.Int("n", 2000, "number of generated cases")
 	out := flag.String("out", "", "output file")
 	replay := flag.String("replay", "", "file of lines with case=x… fields to re-run")
-	stage := flag.String("stage", "auth", "auth | genuine | aud | handlers | history | http")
+	stage := flag.String("stage", "auth", "auth | genuine | aud | handlers | history | http | coll")
 	flips := flag.Bool("flips", false, "add every single-bit flip of one valid token per credential type")
 	flag.Parse()
 	o, err := c.NewOut(*out)
@@ -135,6 +143,27 @@ func main() {
 		return
 	case "handlers":
 		handlerStage(o)
+		return
+	case "leantables":
+		repo := os.Getenv("VERIF_REPO")
+		if repo == "" {
+			repo = "/repo"
+		}
+		leanTables(repo)
+		return
+	case "coll":
+		collStage(o, *n, *replay)
+		return
+	case "convert":
+		convertStage(o, *n, *replay)
+		return
+	case "static": // the three stages that need no authority, in one process: aud + coll + handlers
+		audStage(o, *n/8, *replay)
+		collStage(o, *n, *replay)
+		convertStage(o, *n/10, *replay)
+		if *replay == "" {
+			handlerStage(o)
+		}
 		return
 	case "http":
 		log.SetOutput(io.Discard)
@@ -181,6 +210,9 @@ func main() {
 		return
 	}
 	for _, k := range corner(r.worlds) {
+		if r.stage == "genuine" && k.W >= 2 {
+			continue // the property oracle runs the fixed cases of the two full authorities; auth runs them all
+		}
 		r.emit(k)
 	}
 	if *flips {
